@@ -31,6 +31,7 @@ func init() {
 		Level: "exploration",
 		Rule: "the constants of every enumerated type are read from the current /repo/ir/enum/*.go and /repo/ir/types/types.go with go/types (domain only); each defined value v is printed with String(), read back with asmenum.XxxFromString, checked for the Type(N) fall-back and for keyword clashes, then placed in its host construct of a minimal module built through the API, printed, re-parsed with asm.ParseString (value must come back) and offered to llvm-as. " +
 			"flag sets: all subsets of AllocKind and DISPFlag members, all DIFlag subsets of size<=2 (quick) / <=3 (thorough) plus PRNG subsets, crossed with the accessibility and inheritance sub-fields, printed inside their metadata node and re-parsed. " +
+			"header combinations: linkage x preemption x visibility x DLL storage class x unnamed_addr (x TLS model) on globals, global declarations, function declarations, definitions and aliases; the combinations llvm-as accepts (on a text written by the monitor) are set through the API, printed, re-parsed and every field compared. " +
 			"non-trivial = a defined value other than the zero/none member, or a non-empty flag set; distinct by (type, value)",
 		Gen:           genC18,
 		MinNontrivial: 300,
